@@ -144,11 +144,82 @@ func (r *vfC20Run) prelude(rng *rand.Rand, ids []uint32) bool {
 	return true
 }
 
+// idlePrelude fills the list of retained idle nodes exactly, then declares a new stream that depends on the oldest of them (creating
+// its node evicts that very parent), opens it and queues a frame there.
+func (r *vfC20Run) idlePrelude(rng *rand.Rand, ids []uint32) bool {
+	fill := r.maxIdle
+	if fill > len(ids)-1 {
+		return true
+	}
+	adj := func(id, dep uint32, w uint8) bool {
+		if !r.guard("adjust", func() { r.ws.AdjustStream(id, PriorityParam{StreamDep: dep, Weight: w}) }) {
+			return false
+		}
+		r.emit(vfC20Ev{"op": "adjust", "s": id, "dep": dep, "excl": false, "w": w})
+		return true
+	}
+	for i := 0; i < fill; i++ {
+		dep := uint32(0)
+		if i > 0 && rng.Intn(2) == 0 {
+			dep = ids[i-1]
+		}
+		if !adj(ids[i], dep, uint8(10+i)) {
+			return false
+		}
+	}
+	id := ids[fill]
+	if !adj(id, ids[0], 77) {
+		return false
+	}
+	st := &stream{id: id, sc: r.sc}
+	st.flow.conn = &r.sc.flow
+	st.flow.n = 3
+	if !r.guard("open", func() { r.ws.OpenStream(id, OpenStreamOptions{}) }) {
+		return false
+	}
+	r.streams[id] = st
+	r.emit(vfC20Ev{"op": "open", "s": id})
+	r.nframes++
+	fid := r.nframes
+	if !r.guard("push", func() { r.ws.Push(FrameWriteRequest{write: vfHdrFrame{fid}, stream: st}) }) {
+		return false
+	}
+	r.origLen[fid] = 0
+	r.emit(vfC20Ev{"op": "push", "k": "H", "s": id, "len": 0})
+	for k := 0; k < 2; k++ {
+		var wr FrameWriteRequest
+		var ok bool
+		if !r.guard("pop", func() { wr, ok = r.ws.Pop() }) {
+			return false
+		}
+		r.pops++
+		ev := vfC20Ev{"op": "pop", "ok": ok, "id": 0, "s": 0, "k": "-", "len": 0, "whole": false}
+		if ok {
+			r.popsOK++
+			if w, isH := wr.write.(vfHdrFrame); isH {
+				ev["id"], ev["k"], ev["s"], ev["whole"] = w.id, "H", wr.StreamID(), true
+			}
+		}
+		r.emit(ev)
+		if !ok {
+			break
+		}
+	}
+	return true
+}
+
 func (r *vfC20Run) history(rng *rand.Rand, ids []uint32, steps int) {
 	r.reset()
-	if r.kind == "prio" && rng.Intn(2) == 0 {
-		if !r.prelude(rng, ids) {
-			return
+	if r.kind == "prio" {
+		switch rng.Intn(4) {
+		case 0, 1:
+			if !r.prelude(rng, ids) {
+				return
+			}
+		case 2:
+			if r.maxIdle > 0 && !r.idlePrelude(rng, ids) {
+				return
+			}
 		}
 	}
 	for i := 0; i < steps; i++ {
